@@ -7,13 +7,29 @@ from gen import dl, progen, refeval
 
 
 def trees(*names):
-    """(re)build the requested souffle trees from /repo's working tree; returns dict name -> souffle binary"""
+    """(re)build the requested souffle trees from /repo's working tree; returns dict name -> souffle binary.
+    The binaries are hard-linked into a directory private to this check run, so that a later relink of the tree (another
+    check starting, a developer rebuild) cannot pull the executable away under the running cases."""
+    import atexit
     out = {}
     for n in names:
         try:
-            out[n] = build.ensure_tree(n)
+            src = build.ensure_tree(n)
         except RuntimeError as e:
             raise Inconclusive(str(e))
+        priv = os.path.join(build.BUILD, "run", "%d-%s" % (os.getpid(), n))
+        shutil.rmtree(priv, ignore_errors=True)
+        os.makedirs(priv)
+        atexit.register(shutil.rmtree, priv, True)
+        with build.Lock(n):
+            for f in ("souffle", "souffleprof"):
+                a = os.path.join(os.path.dirname(src), f)
+                if os.path.exists(a):
+                    try:
+                        os.link(a, os.path.join(priv, f))
+                    except OSError:
+                        shutil.copy2(a, os.path.join(priv, f))
+        out[n] = os.path.join(priv, "souffle")
     return out
 
 
